@@ -254,6 +254,54 @@ def _swap_case(rng, tier):
 
 
 ZFAULTS = ["EACCES", "EIO", "EISDIR", "READ_EIO"]
+REOPEN_MODES = ["differs", "malformed", "missing", "EACCES"]
+
+
+def _reopen_cases(rng):
+    out = []
+    for amode in ("value", "absent", "zero"):
+        for zmode in ("zones", "absent"):
+            for mode in REOPEN_MODES:
+                for rep in range(2):
+                    present = set(AVGROUP[:3]) | {g for g in GROUPS if g != "MemShared:" and g != "InactTriple"}
+                    c = _vm_case(rng, present, "normal", amode, zmode, cls="vm-reopen-" + mode)
+                    c["reopen"] = {"mode": mode, "seed": rng.randrange(1 << 30)}
+                    out.append(c)
+    for mode in REOPEN_MODES:
+        for rep in range(3):
+            c = _swap_case(rng, "quick")
+            c["cls"] = "swap-reopen-" + mode
+            c["reopen"] = {"mode": mode, "seed": rng.randrange(1 << 30)}
+            out.append(c)
+    return out
+
+
+def _second_snapshot(mi, ro):
+    """what the 2nd, 3rd, ... open of meminfo within one call is served (derived from the first snapshot and the case's seed):
+    None = the open fails; bytes = the content"""
+    import random
+    import re
+    if ro["mode"] in ("missing", "EACCES"):
+        return None
+    r = random.Random(ro["seed"])
+    if ro["mode"] == "malformed":
+        return r.choice([b"", b"\x00\xff\xfe garbage\n", b"MemTotal:\n", b"MemTotal: 12 kB\n", b"MemFree: 7 kB\nCached: x kB\n",
+                         b"        total:    used:    free:  shared: buffers:  cached:\n"])
+    out = []
+    keep_total = r.random() < 0.5
+    for line in mi.split(b"\n"):
+        m = re.match(rb"^(\S+)(\s+)(\d+)(.*)$", line)
+        if not m or (m.group(1) == b"MemTotal:" and keep_total):
+            out.append(line)
+            continue
+        name, v = m.group(1), int(m.group(3))
+        if name == b"MemAvailable:" and r.random() < 0.4:
+            continue                                     # the counter disappears
+        nv = r.choice([v // 2 + 1, v // 3, v // 2 + 1, 0 if name not in (b"MemTotal:", b"MemFree:") else v // 4 + 3, v + v // 5 + 11])
+        out.append(m.group(1) + m.group(2) + str(nv).encode() + m.group(4))
+    if b"MemAvailable:" not in mi and r.random() < 0.6:
+        out.insert(2, b"MemAvailable:   %d kB" % r.randrange(1, 50000))    # ... or appears
+    return b"\n".join(out)
 
 
 def _phy_mem(rng, t):
@@ -542,6 +590,11 @@ def gen_cases(rng, tier):
                 if t1 != t2:
                     for shape in (["vm", "vm", "mp"], ["mp", "vm", "mp"], ["vm", "mp", "vm", "mp"], ["vm", "vm", "vm", "mp"]):
                         cases.append(_phymem_directed(rng, shape, [t1, t2]))
+    # systematic (every tier, never sampled): /proc/meminfo CHANGES BETWEEN TWO OPENS MADE INSIDE ONE CALL -- the k-th open of
+    # {procfs}/meminfo within the call is served snapshot k; the demanded answer is the spec of the FIRST snapshot (one call = one
+    # reading).  MemAvailable {value, absent, 0} x zoneinfo {present, absent} x second snapshot {differs, malformed, missing, EACCES}
+    # x 2 draws, all inputs of the estimate present so that the fallback path consults /proc/zoneinfo; same for swap_memory().
+    cases += _reopen_cases(rng)
     for _ in range(n_rand):
         present = {g for g in GROUPS + AVGROUP[:2] if rng.random() < rng.choice([0.5, 0.9, 0.97])}
         cases.append(_vm_case(rng, present, rng.choice(MAGS), rng.choice(amodes), rng.choice(zmodes),
@@ -1088,6 +1141,30 @@ def impl_run(case, coq, env):
                     return _Broken()
                 return old_open(fname, *a, **kw)
             _pslinux.open_binary = fake_open_binary
+    import builtins
+    old_builtin_open = builtins.open
+    ro = case.get("reopen")
+    opens = []
+    if ro:
+        # the file changes between two opens made inside ONE call: open no. 1 of {procfs}/meminfo gets the first snapshot,
+        # every later one the second (other content / malformed) or an error (file gone / EACCES)
+        import errno
+        mpath = os.path.join(root, "meminfo")
+        snap2 = _second_snapshot(mi, ro)
+        if snap2 is not None:
+            _write(mpath + ".2", snap2)
+
+        def counting_open(file, *a, **kw):
+            if isinstance(file, (str, bytes)) and os.fsdecode(file) == mpath:
+                opens.append(1)
+                if len(opens) > 1:
+                    if ro["mode"] == "missing":
+                        raise FileNotFoundError(errno.ENOENT, "No such file or directory", file)
+                    if ro["mode"] == "EACCES":
+                        raise PermissionError(errno.EACCES, "Permission denied", file)
+                    return old_builtin_open(mpath + ".2", *a, **kw)
+            return old_builtin_open(file, *a, **kw)
+        builtins.open = counting_open
     psutil.PROCFS_PATH = root
     _pslinux.PAGESIZE = case.get("ps", 4096)
     si = case.get("sysinfo")
@@ -1120,8 +1197,11 @@ def impl_run(case, coq, env):
                 vals[pidx] = 0
                 return vals
             main = outcome(call, conv)
+        builtins.open = old_builtin_open
         msgs = [(w.category.__name__, str(w.message)) for w in ws]
         side["warns"] = msgs
+        if ro:
+            side["meminfo_opens"] = len(opens)
         if main.get("t") == "Val":
             vals = main["a"][0]
             if vm:
@@ -1145,6 +1225,7 @@ def impl_run(case, coq, env):
             return main      # an exception: nothing else to report (same shape as the model's outcome)
         return [main, side]
     finally:
+        builtins.open = old_builtin_open
         psutil.PROCFS_PATH, _pslinux.PAGESIZE, _pslinux.cext.linux_sysinfo = old_path, old_ps, old_si
         _pslinux.open_binary = old_open
 
